@@ -241,6 +241,102 @@ type c03Case struct {
 	// single-step sweeps
 	AddLen  int `json:"add_len,omitempty"`
 	AddBase int `json:"add_base,omitempty"`
+	// Many: a message of Many[0] attributes in type pattern Many[1], built by Add (Many[2]==0) or by Build (1)
+	Many []int `json:"many,omitempty"`
+	// Live: message A gets attributes of Live[0] and Live[1] bytes, then an unrelated message B one of Live[2]
+	// bytes; A is checked again afterwards (two live messages must not share storage)
+	Live []int `json:"live,omitempty"`
+}
+
+// c03Many: long attribute lists, with repeated types.
+func c03Many(k c03Case) (key, detail string) {
+	n, pat, viaBuild := k.Many[0], k.Many[1], k.Many[2] == 1
+	p := catch(func() {
+		m := new(stun.Message)
+		var setters []stun.Setter
+		setters = append(setters, stun.BindingRequest, stun.NewTransactionIDSetter([12]byte{3, 1, 4, 1, 5, 9, 2, 6, 5, 3, 5, 9}))
+		m.TransactionID = [12]byte{3, 1, 4, 1, 5, 9, 2, 6, 5, 3, 5, 9}
+		m.Type = stun.BindingRequest
+		m.WriteHeader()
+		for i := 0; i < n; i++ {
+			t := stun.AttrType(0x0012) // XOR-PEER-ADDRESS, the attribute real messages repeat
+			v := patBytes(1+i%9, i)
+			switch pat {
+			case 1:
+				t = []stun.AttrType{0x0012, 0x000C}[i%2]
+			case 2:
+				t = stun.AttrType(0x4000 + i)
+			case 3:
+				v = patBytes(5, 0)
+			case 4: // all equal but the last
+				v = patBytes(5, 0)
+				if i == n-1 {
+					v = patBytes(5, 1)
+				}
+			}
+			if viaBuild {
+				setters = append(setters, stun.RawAttribute{Type: t, Value: v})
+			} else {
+				m.Add(t, v)
+			}
+		}
+		if viaBuild {
+			if err := m.Build(setters...); err != nil {
+				key, detail = "build-fails", err.Error()
+				return
+			}
+		}
+		if key, detail = c03Coherent(m); key != "" {
+			return
+		}
+		if !m.Equal(m) {
+			key, detail = "equal-disagrees", "m.Equal(m) is false"
+			return
+		}
+		c := new(stun.Message)
+		if err := m.CloneTo(c); err != nil || !c.Equal(m) || !m.Equal(c) {
+			key, detail = "equal-disagrees", fmt.Sprintf("clone: CloneTo = %v, Equal(clone) false", err)
+		}
+	})
+	if p != "" {
+		return "panic", p
+	}
+	if key != "" {
+		detail = fmt.Sprintf("%d attributes, type pattern %d, via Build %v => %s", n, pat, viaBuild, detail)
+	}
+	return
+}
+
+// c03Live: two messages alive at once.
+func c03Live(k c03Case) (key, detail string) {
+	p := catch(func() {
+		for rep := 0; rep < 3 && key == ""; rep++ {
+			a := new(stun.Message)
+			a.WriteHeader()
+			a.Add(0x0013, patBytes(k.Live[0], 1))
+			a.Add(0x0014, patBytes(k.Live[1], 2))
+			if key, detail = c03Coherent(a); key != "" {
+				return
+			}
+			b := new(stun.Message)
+			b.WriteHeader()
+			b.Add(0x0013, bytes.Repeat([]byte{0xEE}, k.Live[2]))
+			b.Add(0x0006, []byte("x"))
+			if key, detail = c03Coherent(b); key != "" {
+				return
+			}
+			if k2, d2 := c03Coherent(a); k2 != "" {
+				key, detail = "earlier-message-changed/"+k2, "after an unrelated message was built: "+d2
+			}
+		}
+	})
+	if p != "" {
+		return "panic", p
+	}
+	if key != "" {
+		detail = fmt.Sprintf("A: Add(%dB), Add(%dB); B: Add(%dB); A checked again => %s", k.Live[0], k.Live[1], k.Live[2], detail)
+	}
+	return
 }
 
 func (k c03Case) describe() string {
@@ -396,6 +492,45 @@ func init() {
 					}
 				}
 			}
+			// long attribute lists with repeated types (Add and Build), and two live messages
+			var mi int64
+			for _, n := range []int{2, 8, 16, 17, 31, 32, 33, 40, 64, 65, 100, 128, 129, 300} {
+				for pat := 0; pat < 5; pat++ {
+					for via := 0; via < 2; via++ {
+						mi++
+						if !c.Mine(mi) {
+							continue
+						}
+						c.Eval(1)
+						c.DistinctByConstruction++
+						k := c03Case{Start: -2, Many: []int{n, pat, via}}
+						if key, d := c03Many(k); key != "" {
+							c.Violation("many/"+key, d, k)
+						} else {
+							c.Outcome("many-attributes")
+						}
+					}
+				}
+			}
+			sizes := []int{8, 600, 1100, 1500, 2100, 3000}
+			for _, l0 := range sizes {
+				for _, l1 := range sizes {
+					for _, l2 := range sizes {
+						mi++
+						if !c.Mine(mi) {
+							continue
+						}
+						c.Eval(1)
+						c.DistinctByConstruction++
+						k := c03Case{Start: -3, Live: []int{l0, l1, l2}}
+						if key, d := c03Live(k); key != "" {
+							c.Violation("live/"+key, d, k)
+						} else {
+							c.Outcome("two-live-messages")
+						}
+					}
+				}
+			}
 			c.Res.States = c.Res.Evaluations
 			c.Extra("depth", float64(depth))
 			c.Extra("alphabet_size", float64(na))
@@ -407,6 +542,18 @@ func init() {
 			var k c03Case
 			if err := json.Unmarshal(p, &k); err != nil {
 				c.Fail("%v", err)
+			}
+			if k.Many != nil {
+				if key, d := c03Many(k); key != "" {
+					c.Violation("many/"+key, d, k)
+				}
+				return
+			}
+			if k.Live != nil {
+				if key, d := c03Live(k); key != "" {
+					c.Violation("live/"+key, d, k)
+				}
+				return
 			}
 			if k.Start < 0 {
 				if key, d := c03AddSweep(k); key != "" {
